@@ -15,6 +15,10 @@ CLAIMED = {
    text='Decides the hand-off disciplines eventual service depends on: idle connection => wake-up in the same atomic segment; a woken waiter leaving by any exception (incl. cancellation) passes the wake-up on; waiter counters restored on all exits; connect-failure handler reaches retry or abort_waiters on every path; every path of Pool._acquire to the wait registers a demand or is dominated by a test implying the block has a connection (explicit implication table); no phantom pending connection (ledger); tick kept alive. Fairness itself is not decided.',
    note=NOTE + ' Exception model as C15 plus CancelledError at awaits of client-awaited coroutines.',
    technique='static analysis: CFG must-pass-through / dominance queries, path enumeration with a small explicit implication table, counting effect system shared with C15'),
+ 'C17': dict(
+   text='Decides for edb/server/compiler_pool that the five state components keep one slot order from the sender (both arms) through worker entry signatures, __sync__ calls and stores, to the compiler entry points (both worker flavours and the multi-tenant header); that each component is compared with its own belief and sent iff its belief update is recorded; that the belief is acknowledged only after a completed request and never on FailedStateSync; that the belief merge tests None, not truthiness; that LAST_STATE writers agree with _last_pickled_state writers and the reuse marker / by-reference schema are sent only under the matching identity test. Multi-failure histories are not decided.',
+   note=NOTE + ' Component identity is by name after stripping _pickle/_unpacked and owner prefixes.',
+   technique='static analysis: table extraction and agreement between sender, receivers and callee signatures; CFG dominance for the acknowledgement discipline; contradiction rule (None-guard vs truthiness merge)'),
 }
 
 _PENDING = 'check not built yet in this round (design in DESIGN.md §3); will be claimed when its rules are armed'
